@@ -2,7 +2,7 @@
 Tie B: hand-written Gallina model (coq/C19/Model.v) with the theorems of coq/C19/Properties.v;
 correspondence = extracted model vs the real Observable/Observer/TimeStamp classes on the same
 histories (ASan+UBSan), plus a multi-threaded TimeStamp run checked against the property text."""
-import json, os, re, sys
+import json, os, re, sys, time
 import vlib
 sys.path.insert(0, os.path.dirname(os.path.abspath(__file__)))
 import factgen  # noqa: E402
@@ -343,18 +343,46 @@ def inventory_check(ctx, counts):
                             "executed": report}
 
 
+class Stage:
+    """One stage of the check: an exception inside it is recorded (ctx.broken names the stage) and the run goes on."""
+    def __init__(self, ctx, name):
+        self.ctx, self.name = ctx, name
+
+    def __enter__(self):
+        return self
+
+    def __exit__(self, et, ev, tb):
+        if et is not None and issubclass(et, Exception):
+            import traceback
+            self.ctx.log("stage %s raised:\n%s" % (self.name, "".join(traceback.format_exception(et, ev, tb))[-2000:]))
+            self.ctx.broken.append("stage '%s' of the check raised %s: %s" % (self.name, et.__name__, str(ev)[:200]))
+            return True
+        return False
+
+
+BUDGET_S = 210      # wall-clock budget of one run: searches / shrinkers stop (keeping what they have) when it is used up
+
+
 FACT_THMS = ("facts_table_match", "facts_members", "facts_step", "facts_timestamp_counter", "facts_next_is_fetch_add", "facts_timestamp_ops")
 
 
 def run(ctx):
-    facts = source_facts(ctx)
-    res = ctx.coq_check(("Properties.v", "PropertiesFactsObs.v", "PropertiesFactsTS.v"))
+    t_start = time.time()
+    over_budget = lambda: time.time() - t_start > BUDGET_S      # noqa: E731
+    facts, res, model = {"notes": ["not run"]}, {}, None
+    with Stage(ctx, "fact extraction"):
+        facts = source_facts(ctx)
+    with Stage(ctx, "Coq build"):
+        res = ctx.coq_check(("Properties.v", "PropertiesFactsObs.v", "PropertiesFactsTS.v"))
     bad_facts = [t for t in FACT_THMS if not res.get(t)]
     if bad_facts:
         ctx.log("source-derived obligations that no longer hold: %s; extractor notes: %s; extracted: %s"
                 % (bad_facts, facts.get("notes"), json.dumps({"ts": facts.get("ts"), "table": facts.get("table"), "of": facts.get("of")})[:1500]))
     ctx.cov["source_obligations_broken"] = bad_facts
-    model = ctx.extract(snippets=["conv_N.ml"])
+    with Stage(ctx, "extraction / OCaml model build"):
+        model = ctx.extract(snippets=["conv_N.ml"])
+    if not model:
+        ctx.log("no executable model: the real code is judged by the independent python oracle alone; model-vs-code comparison skipped")
     priv = True
     nbroken = len(ctx.broken)
     jobs = [dict(sources=["harness.cpp"], out="harness", repo_sources=REPO_SRC, sanitize="asan", flags=["-DC19_PRIV"]),
@@ -377,270 +405,287 @@ def run(ctx):
         thr = ctx.cxx(["harness.cpp"], "threads", repo_sources=REPO_SRC, sanitize=None, opt="-O2")
         ctx.log("the counter probe (presets the private static TimeStamp::global) does not compile against this tree: skipped")
     if exe is None:
-        # without the private members the static scenario does not build either: not a separate finding
-        ctx.broken[:] = [b for b in ctx.broken if b not in ("harness build static_first", "harness build static_last")]
-        static_exes = []
-    if exe is None:
         # the private members may have been renamed: fall back to the public interface only
-        exe2 = ctx.cxx(["harness.cpp"], "harness_pub", repo_sources=REPO_SRC, sanitize="asan")
-        if exe2:
-            ctx.broken[:] = [b for b in ctx.broken if b != "harness build harness"]
+        ctx.broken[:] = [b for b in ctx.broken if b != "harness build harness"]
+        exe = ctx.cxx(["harness.cpp"], "harness_pub", repo_sources=REPO_SRC, sanitize="asan")
+        if exe:
             ctx.log("private-state dump does not compile against this tree; comparing wasNotified results only")
-            exe, priv = exe2, False
+            priv = False
+    spriv = True
+    if static_exes[0][1] is None or static_exes[1][1] is None:
+        # same for the static-initialisation scenario: rebuild it on the public interface
+        ctx.broken[:] = [b for b in ctx.broken if b not in ("harness build static_first", "harness build static_last")]
+        pub = ctx.cxx_many([dict(sources=["harness.cpp"], out="static_first_pub", repo_sources=REPO_SRC, sanitize="asan", flags=["-DC19_STATIC_INIT"]),
+                            dict(sources=[ts_cpp, "harness.cpp"], out="static_last_pub", repo_sources=[], sanitize="asan", flags=["-DC19_STATIC_INIT"])])
+        static_exes = [(static_exes[0][0], pub[0]), (static_exes[1][0], pub[1])]
+        spriv = False
     ctx.cov["private_state_dump"] = priv
-    if not model or not exe or not thr:
-        return
-
-    if getattr(ctx, "replay", None):
-        doc = json.load(open(ctx.replay))
-        if doc.get("case"):
-            rc, out, err = single(ctx, exe, doc["case"])
-            ctx.log("replay case: %s\n  observed: %s (rc=%d)\n  required: %s" % (doc["case"], hard(out), rc, oracle(doc["case"], priv)))
-            if rc != 0: ctx.log(err[-1500:])
-
-    # ------------------------------------------------------------ cases
-    r = ctx.rng("cases")
-    cases = []
-    corpus = os.path.join(ctx.verif, "corpus", "C19", "cases.txt")
-    if os.path.exists(corpus):
-        for l in open(corpus):
-            l = l.strip()
-            if l and not l.startswith("#"):
-                t = l.split()
-                if valid_case(t[0], t[1:]): cases.append(l)
-                else: ctx.log("corpus case ignored (violates the lifetime rules): " + l)
-    ncorp = len(cases)
-    nrand = ctx.pick(6000, 60000)
-    for i in range(nrand):
-        cases.append(gen_H(r, 40))
-    nrt = ctx.pick(2000, 20000)
-    for i in range(nrt):
-        cases.append(gen_T(r, 30))
-    nfeat = len(cases)
-    exh1 = exhaustive_H(ALPHA_1, ctx.pick(8, 9))
-    exh2 = exhaustive_H(ALPHA_2, ctx.pick(7, 8))
-    cases += exh1 + exh2
-    ctx.log("cases: corpus %d, random histories %d, random TimeStamp programs %d, exhaustive %d + %d"
-            % (ncorp, nrand, nrt, len(exh1), len(exh2)))
-
-    rc, mlines, merr = vlib.run_lines(ctx, model, [] if priv else ["nopriv"], cases, timeout=1500)
-    if rc != 0 or len(mlines) != len(cases):
-        ctx.broken.append("model driver failed rc=%s lines=%d/%d %s" % (rc, len(mlines), len(cases), merr[-300:]))
-        return
-    ilines, crashes = run_impl(ctx, exe, cases)
-    ctx.count(len(cases))
-
-    # ------------------------------------------------------------ coverage / oracle cross-check
-    hist, feats_tot, lens = {}, {}, {}
-    oracle_bad = 0
-    for c, ml in zip(cases[:nfeat], mlines[:nfeat]):
-        t = c.split()
-        for tok in t[1:]:
-            k = t[0] + ":" + (tok.split(":")[0] if t[0] == "H" else tok.split(".")[1].split(":")[0])
-            hist[k] = hist.get(k, 0) + 1
-        lens[min(40, (len(t) - 1) // 10 * 10)] = lens.get(min(40, (len(t) - 1) // 10 * 10), 0) + 1
-        if t[0] == "H":
-            feats = {}
-            exp = oracle_H(t[1:], priv, feats)
-            for k, v in feats.items():
-                if not k.startswith("_"): feats_tot[k] = feats_tot.get(k, 0) + (v if k.startswith("poll_") else 1)
-            # non-trivial: some poll saw a notification, some poll saw none, and an observable was
-            # destroyed or notifications coalesced
-            if feats.get("poll_true") and feats.get("poll_false") and (
-                    feats.get("coalesced") or feats.get("observable_destroyed_first") or feats.get("late_observer_clean")):
-                ctx.nontriv(c)
-        else:
-            exp = oracle_T(t[1:])
-            if len(set(ml.split(" ## ")[0].split(" ; ")[-1].split())) >= 3: ctx.nontriv(c)
-        if norm_hard(hard(ml)) != norm_hard(exp):
-            oracle_bad += 1
-            if oracle_bad <= 3:
-                ctx.broken.append("python oracle and Coq model disagree on %r: model=%r oracle=%r" % (c, hard(ml)[:300], exp[:300]))
-    for c in exh1 + exh2:
-        if c.count(" p:") >= 2 and " n:" in c: ctx.nontriv(c)
-    ctx.cov["op_histogram"] = hist
-    ctx.cov["history_features"] = feats_tot
-    ctx.cov["length_histogram"] = {str(k): v for k, v in sorted(lens.items())}
-    ctx.cov["case_mix"] = {"corpus": ncorp, "random_histories": nrand, "random_timestamp_programs": nrt,
-                           "exhaustive_1obl_2obs": len(exh1), "exhaustive_2obl_2obs": len(exh2)}
-    ctx.rule = ("valid histories (C++ lifetime rules respected) over 2 observables / 4 observers, random of length <= 40 plus ALL valid "
-                "histories up to length %d over a 9-op alphabet (1 observable, 2 observers) and up to length %d over a 13-op alphabet "
-                "(2 observables, 2 observers); sequentialised TimeStamp programs of up to 3 virtual threads; non-trivial = a history with "
-                "a poll that saw a notification and one that saw none plus coalescing / late observer / observable destroyed first "
-                "(random), or >= 2 polls and a notification (exhaustive); TimeStamp program with >= 3 distinct live values"
-                % (ctx.pick(8, 9), ctx.pick(7, 8)))
-    for c in cases[ncorp:ncorp + 2] + cases[ncorp + nrand:ncorp + nrand + 1]:
-        i = cases.index(c)
-        ctx.sample({"case": c, "model": hard(mlines[i])[:400], "impl": hard(ilines[i])[:400]})
-
-    # ------------------------------------------------------------ compare
-    def fails_factory(kind):
-        def fails(ops):
-            if not ops or not valid_case(kind, ops): return False
-            line = kind + " " + " ".join(ops)
-            rc, out, err = single(ctx, exe, line)
-            return rc != 0 or norm_hard(hard(out)) != norm_hard(oracle(line, priv))
-        return fails
-
-    for (idx, rc, err) in crashes:
-        c = cases[idx]
-        kind, ops = c.split()[0], c.split()[1:]
-        small = vlib.shrink_list(ops, fails_factory(kind))
-        line = kind + " " + " ".join(small)
-        rc2, out, err2 = single(ctx, exe, line)
-        san = re.search(r"(ERROR: AddressSanitizer: [^\n]*|runtime error: [^\n]*)", err2 or err)
-        ctx.violation("the real code crashed / tripped a sanitizer on a valid history (rc=%d): %s" % (rc2 if rc2 else rc, san.group(1) if san else "abort"),
-                      {"case": line, "original_case": c, "observed": hard(out), "required": oracle(line, priv) + "  (no crash, no sanitizer report)",
-                       "stderr_tail": (err2 or err)[-2500:]})
-    hard_mism, soft_mism, order_mism = [], 0, 0
-    crashed = set(i for (i, _, _) in crashes)
-    for i, (il, ml) in enumerate(zip(ilines, mlines)):
-        if il == ml or i in crashed or il == "<not run>":
-            continue
-        hi, hm = hard(il), hard(ml)
-        if hi == hm: soft_mism += 1
-        elif norm_hard(hi) == norm_hard(hm): order_mism += 1
-        else: hard_mism.append(i)
-    ctx.cov["mismatches"] = len(hard_mism)
-    ctx.cov["stamp_offset_differences_informational"] = soft_mism
-    ctx.cov["registration_order_differences_informational"] = order_mism
-    if soft_mism or order_mism:
-        ctx.log("note: %d cases differ from the model only in absolute stamp offsets, %d only in registration order "
-                "(not part of the property; not an alarm)" % (soft_mism, order_mism))
-    reported = 0
-    broken_corr = 0
-    for i in sorted(hard_mism, key=lambda i: len(cases[i])):
-        if reported >= 2 or broken_corr >= 2: break
-        c = cases[i]
-        kind, ops = c.split()[0], c.split()[1:]
-        exp = oracle(c, priv)
-        if norm_hard(hard(ilines[i])) != norm_hard(exp):
-            small = vlib.shrink_list(ops, fails_factory(kind))
-            line = kind + " " + " ".join(small)
-            rc2, out, err2 = single(ctx, exe, line)
-            what = "Observer/Observable history" if kind == "H" else "TimeStamp program"
-            ctx.violation("%s: the real code contradicts the property text" % what,
-                          {"case": line, "observed": hard(out), "required": oracle(line, priv), "original_case": c,
-                           "model": hard(mlines[i]) if small == ops else None,
-                           "legend": "H step: result|registered observers per observable|per observer <observee><+ pending/. not>, X = dangling; "
-                                     "T step: dense rank of each live variable's value"})
-            reported += 1
-        else:
-            broken_corr += 1
-            ctx.broken.append("correspondence C19 model vs real code on case %r: impl=%r model=%r (impl satisfies the property oracle)"
-                              % (c, hard(ilines[i])[:200], hard(mlines[i])[:200]))
-
-    # ------------------------------------------------------------ objects created, notified and polled before main()
-    GLOB_OK = "pre:increasing,010 main:increasing,101010"
-    rs = ctx.rng("static")
-    scases = [("H", 0), ("H nb:0 no:0:0 n:0 p:0 n:0 n:0 no:1:0 p:0 p:0 p:1 db:0 p:0", 3), ("H nb:0 no:0:0 no:1:0 n:0 p:0 p:1 p:0", 4),
-              ("H nb:1 n:1 no:2:1 p:2 n:1 p:2 p:2", 7)]
-    for _ in range(ctx.pick(20, 120)):
-        c = gen_H(rs, 16)
-        scases.append((c, rs.randint(0, len(c.split()) - 1)))
-
-    def run_static(sexe, ops, k):
-        rc, out, err = ctx.run_exe(sexe, ["static"], env={"C19_PRE": " ".join(ops[:k]), "C19_POST": " ".join(ops[k:])}, timeout=60)
-        line = out.strip("\n")
-        parts = line.split(" ## ")
-        return rc, (parts[0] if parts else ""), (parts[2] if len(parts) > 2 else ""), err
-
-    def static_bad(sexe, ops, k):
-        if not valid_H(ops):
-            return False
-        rc, hd, gl, err = run_static(sexe, ops, min(k, len(ops)))
-        exp = oracle_H(ops, True) if ops else ""
-        return rc != 0 or gl != GLOB_OK or norm_hard(hd) != norm_hard(exp)
-    sstat = {"runs": 0}
-    for (what, sexe) in static_exes:
-        if not sexe:
-            continue
-        found = None
-        for (c, k) in scases:
-            ops = c.split()[1:]
-            sstat["runs"] += 1
-            ctx.count(1)
-            if static_bad(sexe, ops, k):
-                found = (ops, k)
-                break
-            if k and len(ops) > k:
-                ctx.nontriv("static %s %d %s" % (c, k, what[:30]))
-        if found:
-            ops, k = found
-            pre, post = ops[:k], ops[k:]
-            # shrink: first the part run in main, then the part run before main
-            if static_bad(sexe, [], 0):
-                pre, post = [], []             # the namespace-scope objects alone show it
-            else:
-                post = vlib.shrink_list(post, lambda q: static_bad(sexe, pre + q, len(pre)))
-                pre = vlib.shrink_list(pre, lambda q: static_bad(sexe, q + post, len(q)))
-            ops = pre + post
-            rc, hd, gl, err = run_static(sexe, ops, len(pre))
-            ctx.violation("objects with static storage duration / a history begun before main(): the real code contradicts the property text (%s)" % what,
-                          {"case": "H " + " ".join(ops), "executed_before_main": " ".join(pre), "executed_in_main": " ".join(post), "link_order": what,
-                           "observed": hd, "required": oracle_H(ops, True) if ops else "",
-                           "namespace_scope_objects_observed": gl, "namespace_scope_objects_required": GLOB_OK,
-                           "legend": "namespace-scope TimeStamp, Observable, two Observers, TimeStamp; pre: their stamps in creation order, then poll A / notify / poll A / poll A "
-                                     "before main; main: a fresh and a renewed stamp larger than all earlier ones, then poll B, B / notify x2 / poll A, A, B, B",
-                           "rc": rc, "stderr_tail": err[-1200:],
-                           "rerun": "C19_PRE='%s' C19_POST='%s' %s static" % (" ".join(pre), " ".join(post), sexe)})
-    ctx.cov["static_init_scenario"] = sstat
-    # ------------------------------------------------------------ threads
-    configs = [(2, 100000), (3, 100000), (4, 100000), (8, 100000), (16, 100000)]
-    rounds = ctx.pick(2, 6)
-    tstat = {"runs": 0, "values": 0}
+    hist, tstat, sstat, probes = {}, {"runs": 0, "values": 0}, {"runs": 0}, {"runs": 0, "skipped": 0}
     bad = None
-    for rd in range(rounds):
-        for (n, it) in configs:
-            rc, out, err = ctx.run_exe(thr, ["threads", str(n), str(it)], timeout=300)
-            tstat["runs"] += 1
-            m = re.search(r"OK threads=\d+ values=(\d+)", out)
-            if rc == 0 and m:
-                tstat["values"] += int(m.group(1)); ctx.count(1); ctx.nontriv("threads %d %d %d" % (n, it, rd))
-            elif bad is None:
-                bad = (n, it, rc, out.strip()[:500], err[-1500:])
-    if tsan:
-        for (n, it) in [(2, 20000), (4, 20000), (8, 10000), (16, 5000)]:
-            rc, out, err = ctx.run_exe(tsan, ["threads", str(n), str(it)], timeout=600)
-            tstat["runs"] += 1
-            if rc == 0 and out.startswith("OK"):
-                ctx.count(1); tstat["tsan_runs"] = tstat.get("tsan_runs", 0) + 1
-            elif bad is None:
-                bad = (n, it, rc, out.strip()[:500], "[TSan build] " + err[-1500:])
-    ctx.cov["threads_test"] = tstat
-    # ------------------------------------------------------------ counter probes (private static TimeStamp::global preset)
-    # the counter is a 64-bit size_t: a value narrowed on its way out of nextValue() repeats / decreases when the counter
-    # passes 2^31, 2^32 ...; wrap-around at 2^64 itself is outside the property's reach (model counter unbounded)
-    probes = {"runs": 0, "skipped": 0}
-    if counter_exe and not bad:
-        for start in ((1 << 31) - 8, (1 << 32) - 8, (1 << 63) - 8, (1 << 16) - 8):
-            for (n, it) in ((1, 16), (2, 16)):
-                rc, out, err = ctx.run_exe(counter_exe, ["counter", str(start), str(n), str(it)], timeout=120)
-                probes["runs"] += 1
-                o = out.strip()
-                if o.startswith("SKIP"):
-                    probes["skipped"] += 1
-                elif rc == 0 and o.startswith("OK"):
-                    m = re.search(r"min=(\d+) max=(\d+)", o)
-                    if m and int(m.group(1)) >= start:
-                        ctx.count(1); ctx.nontriv("counter %d %d %d" % (start, n, it))
-                    elif bad is None:
-                        bad = (n, it, rc, "stamps handed out after the counter was set to %d: %s (values below the counter)" % (start, o), err[-800:], start)
-                elif bad is None:
-                    bad = (n, it, rc, o[:500] or "rc=%d" % rc, err[-1500:], start)
-        if bad and len(bad) == 6:
-            ctx.violation("TimeStamp with the global counter at %d (%s): %s" % (bad[5], "2^%d - 8" % ((bad[5] + 8).bit_length() - 1) if (bad[5] + 8) & (bad[5] + 7) == 0 else bad[5], bad[3]),
-                          {"counter_start": bad[5], "threads": bad[0], "iterations_per_thread": bad[1], "rc": bad[2], "observed": bad[3], "stderr_tail": bad[4],
-                           "required": "every stamp created or renewed is larger than all earlier ones of its thread and distinct from all others, also when the "
-                                       "64-bit counter passes 2^31 / 2^32 / 2^63",
-                           "rerun": "%s counter %d %d %d" % (counter_exe, bad[5], bad[0], bad[1])})
+
+    if exe:
+      with Stage(ctx, "histories on the real code"):
+            if getattr(ctx, "replay", None):
+                doc = json.load(open(ctx.replay))
+                if doc.get("case"):
+                    rc, out, err = single(ctx, exe, doc["case"])
+                    ctx.log("replay case: %s\n  observed: %s (rc=%d)\n  required: %s" % (doc["case"], hard(out), rc, oracle(doc["case"], priv)))
+                    if rc != 0: ctx.log(err[-1500:])
+
+            # ------------------------------------------------------------ cases
+            r = ctx.rng("cases")
+            cases = []
+            corpus = os.path.join(ctx.verif, "corpus", "C19", "cases.txt")
+            if os.path.exists(corpus):
+                for l in open(corpus):
+                    l = l.strip()
+                    if l and not l.startswith("#"):
+                        t = l.split()
+                        if valid_case(t[0], t[1:]): cases.append(l)
+                        else: ctx.log("corpus case ignored (violates the lifetime rules): " + l)
+            ncorp = len(cases)
+            nrand = ctx.pick(6000, 60000)
+            for i in range(nrand):
+                cases.append(gen_H(r, 40))
+            nrt = ctx.pick(2000, 20000)
+            for i in range(nrt):
+                cases.append(gen_T(r, 30))
+            nfeat = len(cases)
+            exh1 = exhaustive_H(ALPHA_1, ctx.pick(8, 9))
+            exh2 = exhaustive_H(ALPHA_2, ctx.pick(7, 8))
+            cases += exh1 + exh2
+            ctx.log("cases: corpus %d, random histories %d, random TimeStamp programs %d, exhaustive %d + %d"
+                    % (ncorp, nrand, nrt, len(exh1), len(exh2)))
+
+            mlines = None
+            if model:
+                rc, mlines, merr = vlib.run_lines(ctx, model, [] if priv else ["nopriv"], cases, timeout=1500)
+                if rc != 0 or len(mlines) != len(cases):
+                    ctx.broken.append("model driver failed rc=%s lines=%d/%d %s" % (rc, len(mlines), len(cases), merr[-300:]))
+                    mlines = None
+            if mlines is None:
+                # no model lines: the python oracle (the property text) is the reference for every case
+                mlines = [oracle(c, priv) + " ## " for c in cases]
+            ilines, crashes = run_impl(ctx, exe, cases)
+            ctx.count(len(cases))
+
+            # ------------------------------------------------------------ coverage / oracle cross-check
+            hist, feats_tot, lens = {}, {}, {}
+            oracle_bad = 0
+            for c, ml in zip(cases[:nfeat], mlines[:nfeat]):
+                t = c.split()
+                for tok in t[1:]:
+                    k = t[0] + ":" + (tok.split(":")[0] if t[0] == "H" else tok.split(".")[1].split(":")[0])
+                    hist[k] = hist.get(k, 0) + 1
+                lens[min(40, (len(t) - 1) // 10 * 10)] = lens.get(min(40, (len(t) - 1) // 10 * 10), 0) + 1
+                if t[0] == "H":
+                    feats = {}
+                    exp = oracle_H(t[1:], priv, feats)
+                    for k, v in feats.items():
+                        if not k.startswith("_"): feats_tot[k] = feats_tot.get(k, 0) + (v if k.startswith("poll_") else 1)
+                    # non-trivial: some poll saw a notification, some poll saw none, and an observable was
+                    # destroyed or notifications coalesced
+                    if feats.get("poll_true") and feats.get("poll_false") and (
+                            feats.get("coalesced") or feats.get("observable_destroyed_first") or feats.get("late_observer_clean")):
+                        ctx.nontriv(c)
+                else:
+                    exp = oracle_T(t[1:])
+                    if len(set(ml.split(" ## ")[0].split(" ; ")[-1].split())) >= 3: ctx.nontriv(c)
+                if norm_hard(hard(ml)) != norm_hard(exp):
+                    oracle_bad += 1
+                    if oracle_bad <= 3:
+                        ctx.broken.append("python oracle and Coq model disagree on %r: model=%r oracle=%r" % (c, hard(ml)[:300], exp[:300]))
+            for c in exh1 + exh2:
+                if c.count(" p:") >= 2 and " n:" in c: ctx.nontriv(c)
+            ctx.cov["op_histogram"] = hist
+            ctx.cov["history_features"] = feats_tot
+            ctx.cov["length_histogram"] = {str(k): v for k, v in sorted(lens.items())}
+            ctx.cov["case_mix"] = {"corpus": ncorp, "random_histories": nrand, "random_timestamp_programs": nrt,
+                                   "exhaustive_1obl_2obs": len(exh1), "exhaustive_2obl_2obs": len(exh2)}
+            ctx.rule = ("valid histories (C++ lifetime rules respected) over 2 observables / 4 observers, random of length <= 40 plus ALL valid "
+                        "histories up to length %d over a 9-op alphabet (1 observable, 2 observers) and up to length %d over a 13-op alphabet "
+                        "(2 observables, 2 observers); sequentialised TimeStamp programs of up to 3 virtual threads; non-trivial = a history with "
+                        "a poll that saw a notification and one that saw none plus coalescing / late observer / observable destroyed first "
+                        "(random), or >= 2 polls and a notification (exhaustive); TimeStamp program with >= 3 distinct live values"
+                        % (ctx.pick(8, 9), ctx.pick(7, 8)))
+            for c in cases[ncorp:ncorp + 2] + cases[ncorp + nrand:ncorp + nrand + 1]:
+                i = cases.index(c)
+                ctx.sample({"case": c, "model": hard(mlines[i])[:400], "impl": hard(ilines[i])[:400]})
+
+            # ------------------------------------------------------------ compare
+            def fails_factory(kind):
+                def fails(ops):
+                    if over_budget() or not ops or not valid_case(kind, ops): return False
+                    line = kind + " " + " ".join(ops)
+                    rc, out, err = single(ctx, exe, line)
+                    return rc != 0 or norm_hard(hard(out)) != norm_hard(oracle(line, priv))
+                return fails
+
+            for (idx, rc, err) in crashes:
+                c = cases[idx]
+                kind, ops = c.split()[0], c.split()[1:]
+                small = vlib.shrink_list(ops, fails_factory(kind))
+                line = kind + " " + " ".join(small)
+                rc2, out, err2 = single(ctx, exe, line)
+                san = re.search(r"(ERROR: AddressSanitizer: [^\n]*|runtime error: [^\n]*)", err2 or err)
+                ctx.violation("the real code crashed / tripped a sanitizer on a valid history (rc=%d): %s" % (rc2 if rc2 else rc, san.group(1) if san else "abort"),
+                              {"case": line, "original_case": c, "observed": hard(out), "required": oracle(line, priv) + "  (no crash, no sanitizer report)",
+                               "stderr_tail": (err2 or err)[-2500:]})
+            hard_mism, soft_mism, order_mism = [], 0, 0
+            crashed = set(i for (i, _, _) in crashes)
+            for i, (il, ml) in enumerate(zip(ilines, mlines)):
+                if il == ml or i in crashed or il == "<not run>":
+                    continue
+                hi, hm = hard(il), hard(ml)
+                if hi == hm: soft_mism += 1
+                elif norm_hard(hi) == norm_hard(hm): order_mism += 1
+                else: hard_mism.append(i)
+            ctx.cov["mismatches"] = len(hard_mism)
+            ctx.cov["stamp_offset_differences_informational"] = soft_mism
+            ctx.cov["registration_order_differences_informational"] = order_mism
+            if soft_mism or order_mism:
+                ctx.log("note: %d cases differ from the model only in absolute stamp offsets, %d only in registration order "
+                        "(not part of the property; not an alarm)" % (soft_mism, order_mism))
+            reported = 0
+            broken_corr = 0
+            for i in sorted(hard_mism, key=lambda i: len(cases[i])):
+                if reported >= 2 or broken_corr >= 2: break
+                c = cases[i]
+                kind, ops = c.split()[0], c.split()[1:]
+                exp = oracle(c, priv)
+                if norm_hard(hard(ilines[i])) != norm_hard(exp):
+                    small = vlib.shrink_list(ops, fails_factory(kind))
+                    line = kind + " " + " ".join(small)
+                    rc2, out, err2 = single(ctx, exe, line)
+                    what = "Observer/Observable history" if kind == "H" else "TimeStamp program"
+                    ctx.violation("%s: the real code contradicts the property text" % what,
+                                  {"case": line, "observed": hard(out), "required": oracle(line, priv), "original_case": c,
+                                   "model": hard(mlines[i]) if small == ops else None,
+                                   "legend": "H step: result|registered observers per observable|per observer <observee><+ pending/. not>, X = dangling; "
+                                             "T step: dense rank of each live variable's value"})
+                    reported += 1
+                else:
+                    broken_corr += 1
+                    ctx.broken.append("correspondence C19 model vs real code on case %r: impl=%r model=%r (impl satisfies the property oracle)"
+                                      % (c, hard(ilines[i])[:200], hard(mlines[i])[:200]))
+
+    if any(e for _, e in static_exes):
+      with Stage(ctx, "static-initialisation scenario"):
+            # ------------------------------------------------------------ objects created, notified and polled before main()
+            GLOB_OK = "pre:increasing,010 main:increasing,101010"
+            rs = ctx.rng("static")
+            scases = [("H", 0), ("H nb:0 no:0:0 n:0 p:0 n:0 n:0 no:1:0 p:0 p:0 p:1 db:0 p:0", 3), ("H nb:0 no:0:0 no:1:0 n:0 p:0 p:1 p:0", 4),
+                      ("H nb:1 n:1 no:2:1 p:2 n:1 p:2 p:2", 7)]
+            for _ in range(ctx.pick(20, 120)):
+                c = gen_H(rs, 16)
+                scases.append((c, rs.randint(0, len(c.split()) - 1)))
+
+            def run_static(sexe, ops, k):
+                rc, out, err = ctx.run_exe(sexe, ["static"], env={"C19_PRE": " ".join(ops[:k]), "C19_POST": " ".join(ops[k:])}, timeout=60)
+                line = out.strip("\n")
+                parts = line.split(" ## ")
+                return rc, (parts[0] if parts else ""), (parts[2] if len(parts) > 2 else ""), err
+
+            def static_bad(sexe, ops, k):
+                if over_budget() or not valid_H(ops):
+                    return False
+                rc, hd, gl, err = run_static(sexe, ops, min(k, len(ops)))
+                exp = oracle_H(ops, spriv) if ops else ""
+                return rc != 0 or gl != GLOB_OK or norm_hard(hd) != norm_hard(exp)
+            sstat = {"runs": 0}
+            for (what, sexe) in static_exes:
+                if not sexe:
+                    continue
+                found = None
+                for (c, k) in scases:
+                    ops = c.split()[1:]
+                    sstat["runs"] += 1
+                    ctx.count(1)
+                    if static_bad(sexe, ops, k):
+                        found = (ops, k)
+                        break
+                    if k and len(ops) > k:
+                        ctx.nontriv("static %s %d %s" % (c, k, what[:30]))
+                if found:
+                    ops, k = found
+                    pre, post = ops[:k], ops[k:]
+                    # shrink: first the part run in main, then the part run before main
+                    if static_bad(sexe, [], 0):
+                        pre, post = [], []             # the namespace-scope objects alone show it
+                    else:
+                        post = vlib.shrink_list(post, lambda q: static_bad(sexe, pre + q, len(pre)))
+                        pre = vlib.shrink_list(pre, lambda q: static_bad(sexe, q + post, len(q)))
+                    ops = pre + post
+                    rc, hd, gl, err = run_static(sexe, ops, len(pre))
+                    ctx.violation("objects with static storage duration / a history begun before main(): the real code contradicts the property text (%s)" % what,
+                                  {"case": "H " + " ".join(ops), "executed_before_main": " ".join(pre), "executed_in_main": " ".join(post), "link_order": what,
+                                   "observed": hd, "required": oracle_H(ops, spriv) if ops else "",
+                                   "namespace_scope_objects_observed": gl, "namespace_scope_objects_required": GLOB_OK,
+                                   "legend": "namespace-scope TimeStamp, Observable, two Observers, TimeStamp; pre: their stamps in creation order, then poll A / notify / poll A / poll A "
+                                             "before main; main: a fresh and a renewed stamp larger than all earlier ones, then poll B, B / notify x2 / poll A, A, B, B",
+                                   "rc": rc, "stderr_tail": err[-1200:],
+                                   "rerun": "C19_PRE='%s' C19_POST='%s' %s static" % (" ".join(pre), " ".join(post), sexe)})
+            ctx.cov["static_init_scenario"] = sstat
+    if thr:
+      with Stage(ctx, "threads test"):
+            # ------------------------------------------------------------ threads
+            configs = [(2, 100000), (3, 100000), (4, 100000), (8, 100000), (16, 100000)]
+            rounds = ctx.pick(2, 6)
+            tstat = {"runs": 0, "values": 0}
             bad = None
-    ctx.cov["counter_probes"] = probes
-    if bad:
-        ctx.violation("TimeStamp under concurrent creation/renewal/copy contradicts the property text: %s" % (bad[3] or "rc=%d" % bad[2]),
-                      {"threads": bad[0], "iterations_per_thread": bad[1], "rc": bad[2], "observed": bad[3], "stderr_tail": bad[4],
-                       "required": "all fresh/renewed values pairwise distinct, strictly increasing per thread, copies equal their source, no data race",
-                       "rerun": "%s threads %d %d" % (thr, bad[0], bad[1])})
+            for rd in range(rounds):
+                for (n, it) in configs:
+                    rc, out, err = ctx.run_exe(thr, ["threads", str(n), str(it)], timeout=300)
+                    tstat["runs"] += 1
+                    m = re.search(r"OK threads=\d+ values=(\d+)", out)
+                    if rc == 0 and m:
+                        tstat["values"] += int(m.group(1)); ctx.count(1); ctx.nontriv("threads %d %d %d" % (n, it, rd))
+                    elif bad is None:
+                        bad = (n, it, rc, out.strip()[:500], err[-1500:])
+            if tsan:
+                for (n, it) in [(2, 20000), (4, 20000), (8, 10000), (16, 5000)]:
+                    rc, out, err = ctx.run_exe(tsan, ["threads", str(n), str(it)], timeout=600)
+                    tstat["runs"] += 1
+                    if rc == 0 and out.startswith("OK"):
+                        ctx.count(1); tstat["tsan_runs"] = tstat.get("tsan_runs", 0) + 1
+                    elif bad is None:
+                        bad = (n, it, rc, out.strip()[:500], "[TSan build] " + err[-1500:])
+            ctx.cov["threads_test"] = tstat
+    if True:
+      with Stage(ctx, "counter probes"):
+            # ------------------------------------------------------------ counter probes (private static TimeStamp::global preset)
+            # the counter is a 64-bit size_t: a value narrowed on its way out of nextValue() repeats / decreases when the counter
+            # passes 2^31, 2^32 ...; wrap-around at 2^64 itself is outside the property's reach (model counter unbounded)
+            probes = {"runs": 0, "skipped": 0}
+            if counter_exe and not bad:
+                for start in ((1 << 31) - 8, (1 << 32) - 8, (1 << 63) - 8, (1 << 16) - 8):
+                    for (n, it) in ((1, 16), (2, 16)):
+                        rc, out, err = ctx.run_exe(counter_exe, ["counter", str(start), str(n), str(it)], timeout=120)
+                        probes["runs"] += 1
+                        o = out.strip()
+                        if o.startswith("SKIP"):
+                            probes["skipped"] += 1
+                        elif rc == 0 and o.startswith("OK"):
+                            m = re.search(r"min=(\d+) max=(\d+)", o)
+                            if m and int(m.group(1)) >= start:
+                                ctx.count(1); ctx.nontriv("counter %d %d %d" % (start, n, it))
+                            elif bad is None:
+                                bad = (n, it, rc, "stamps handed out after the counter was set to %d: %s (values below the counter)" % (start, o), err[-800:], start)
+                        elif bad is None:
+                            bad = (n, it, rc, o[:500] or "rc=%d" % rc, err[-1500:], start)
+                if bad and len(bad) == 6:
+                    ctx.violation("TimeStamp with the global counter at %d (%s): %s" % (bad[5], "2^%d - 8" % ((bad[5] + 8).bit_length() - 1) if (bad[5] + 8) & (bad[5] + 7) == 0 else bad[5], bad[3]),
+                                  {"counter_start": bad[5], "threads": bad[0], "iterations_per_thread": bad[1], "rc": bad[2], "observed": bad[3], "stderr_tail": bad[4],
+                                   "required": "every stamp created or renewed is larger than all earlier ones of its thread and distinct from all others, also when the "
+                                               "64-bit counter passes 2^31 / 2^32 / 2^63",
+                                   "rerun": "%s counter %d %d %d" % (counter_exe, bad[5], bad[0], bad[1])})
+                    bad = None
+            ctx.cov["counter_probes"] = probes
+            if bad:
+                ctx.violation("TimeStamp under concurrent creation/renewal/copy contradicts the property text: %s" % (bad[3] or "rc=%d" % bad[2]),
+                              {"threads": bad[0], "iterations_per_thread": bad[1], "rc": bad[2], "observed": bad[3], "stderr_tail": bad[4],
+                               "required": "all fresh/renewed values pairwise distinct, strictly increasing per thread, copies equal their source, no data race",
+                               "rerun": "%s threads %d %d" % (thr, bad[0], bad[1])})
     counts = dict(hist)
     counts["threads"] = tstat.get("runs", 0)
     counts["static"] = sstat.get("runs", 0)
